@@ -26,7 +26,7 @@ TNext == \/ (Ev("patch.replace.locked") /\ Step(PLock(P, "replace")))
          \/ (Ev("call") /\ l' = l + 1 /\ badcalls' = badcalls + (IF Trace[l].ok THEN 0 ELSE 1) /\ UNCHANGED vars)
          \/ (Ev("call-f5") /\ l' = l + 1 /\ UNCHANGED <<vars, badcalls>>)      \* known finding F5 (judged in the check)
          \/ (Ev("round") /\ (\A p \in Procs : pcs[p] = "idle") /\ l' = l + 1
-             /\ pcs' = pcs /\ lockP' = 0 /\ lockM' = 0 /\ entry' = [p \in Procs |-> "P"] /\ perm' = perm /\ rounds' = rounds /\ UNCHANGED badcalls)
+             /\ pcs' = pcs /\ lockP' = 0 /\ lockM' = 0 /\ entry' = [p \in Procs |-> "P"] /\ perm' = perm /\ rounds' = rounds /\ UNCHANGED <<badcalls, rwvars>>)
 TSpec == TInit /\ [][TNext]_tvars
 NoBadCalls == badcalls = 0
 Accepted == TLCGet("stats").diameter - 1 = Len(Trace)
